@@ -223,6 +223,8 @@ def check(model, rep):
     check_recorder(model, rep)
     from sa.forwarding import check_forwarding
     check_forwarding(model, rep, 'C02.forwarding', ('torque', 'driving_torque', 'load_torque', 'master_gear_ratio', 'master_gear_efficiency', 'external_torque', 'angular_position', 'angular_speed'))
+    from sa.forwarding import check_setter_stores
+    check_setter_stores(model, rep, 'C02.setter-stores', ('torque', 'driving_torque', 'load_torque', 'master_gear_ratio', 'master_gear_efficiency', 'external_torque'))
     # the motor's driving torque must be the documented characteristic: the law extracted by C08's rules
     from sa.core import Report
     from checks import c08
